@@ -24,8 +24,11 @@ logical content but shares nothing of the original's layout:
  * the version descriptor after the terminator is mkisofs' 'MKI ...' text or zeros.
 
 Only traits that real mastering programs show are produced (SUSP and ECMA-119 allow much more).
-Not handled (returns None): UDF bridge, El Torito, multi-extent files, records whose continuation
-would need more than one area, images with validator findings.  The result is checked by the
+El Torito images are handled: the boot record's catalog pointer, the load addresses in the catalog and
+the 'own sector' field of a boot info table follow the moved data.
+Not handled (returns None): UDF bridge, isohybrid system areas that name sectors, multi-extent files,
+boot images that have no name and use an emulation mode, records whose continuation would need more
+than one area, images with validator findings.  The result is checked by the
 independent reader before it is handed out: no findings and the same neutral views as the source,
 otherwise None is returned and the caller counts a harness problem, never a violation.
 
@@ -343,7 +346,12 @@ def remaster(img, style=None):
 
 def _remaster(img, st):
     info = iso9660.read_iso(img)
-    if info['findings'] or not info.get('pvds') or info.get('eltorito') or info.get('boot_records') or info.get('terminator_sector') is None:
+    if info['findings'] or not info.get('pvds') or info.get('terminator_sector') is None:
+        return None
+    el = info.get('eltorito')
+    if len(info.get('boot_records') or []) != (1 if el else 0):
+        return None
+    if el and not (el.get('initial') and 'sections' in el and el.get('catalog_bytes')):
         return None
     for s in range(16, min(len(img) // SECTOR, 16 + 80)):
         if img[s * SECTOR + 1:s * SECTOR + 6] in (b'BEA01', b'NSR02', b'NSR03', b'TEA01', b'BOOT2'):
@@ -494,6 +502,19 @@ def _remaster(img, st):
                 rec = e['records'][0]
                 if rec['length']:
                     old_files[rec['extent']] = max(old_files.get(rec['extent'], 0), nsec(rec['length']))
+    el_entries = []
+    if el:
+        # El Torito: the catalog sector and every boot image move like file data; images without a name are
+        # known only through their load size (no-emulation) - anything else is left alone
+        el_entries = [el['initial']] + [e for sec in el['sections'] for e in sec['entries']]
+        for e in el_entries:
+            if e['rba'] and e['rba'] not in old_files:
+                if e['media'] != 0:
+                    raise Ineligible('unnamed boot image with emulation')
+                old_files[e['rba']] = max(1, nsec(max(1, e['sector_count']) * 512))
+                if (e['rba'] + old_files[e['rba']]) * SECTOR > len(img):
+                    raise Ineligible('boot image outside the image')
+        old_files.setdefault(el['catalog_sector'], 1)
     order = sorted(old_files)
     picks = st['perm'] or [1]
     order.sort(key=lambda x: ((picks[(x * 7) % len(picks)] * 31 + x * 17) % 1009, x))
@@ -536,6 +557,21 @@ def _remaster(img, st):
     for old, new in ctx.files.items():
         n = old_files[old]
         out[new * SECTOR:(new + n) * SECTOR] = img[old * SECTOR:(old + n) * SECTOR].ljust(n * SECTOR, b'\0')
+    patched = set()
+    if el:
+        cat_old = el['catalog_sector']
+        cat = bytearray(img[cat_old * SECTOR:(cat_old + 1) * SECTOR])
+        for e in el_entries:
+            if e['rba']:
+                new_rba = ctx.files[e['rba']]
+                cat[e['offset'] + 8:e['offset'] + 12] = struct.pack('<L', new_rba)
+                # a boot info table (bytes 8..23 of the boot image: PVD sector, own sector, length, checksum) names the image's own sector
+                o = e['rba'] * SECTOR
+                if struct.unpack_from('<L', img, o + 12)[0] == e['rba'] and struct.unpack_from('<L', img, o + 8)[0] == 16:
+                    out[new_rba * SECTOR + 12:new_rba * SECTOR + 16] = struct.pack('<L', new_rba)
+                    patched.add(e['rba'])
+        out[ctx.files[cat_old] * SECTOR:(ctx.files[cat_old] + 1) * SECTOR] = cat
+        patched.add(cat_old)
     # path tables
     for tname, t in trees.items():
         ents = [(b'\x00', ctx.dirs[(tname, '/')][0], 1)]
@@ -571,6 +607,8 @@ def _remaster(img, st):
             ext, size = ctx.dirs[(tname, '/')]
             raw[158:166] = b32(ext)
             raw[166:174] = b32(size)
+        elif d['type'] == 0 and el and d['sector'] == el['boot_record_sector']:
+            raw[71:75] = struct.pack('<L', ctx.files[el['catalog_sector']])
         out[d['sector'] * SECTOR:(d['sector'] + 1) * SECTOR] = raw
     vs = (info['terminator_sector'] + 1) * SECTOR
     if st['mki']:
@@ -581,8 +619,38 @@ def _remaster(img, st):
     info2 = iso9660.read_iso(new)
     if info2['findings']:
         raise SelfCheckFailed('findings: %r' % (info2['findings'][:3],))
-    if iso_views(new, info2) != iso_views(img, info):
+    def views(image, inf, skip):
+        v = iso_views(image, inf)
+        for tname, ns in (('iso', 'iso'), ('joliet', 'jol')):
+            for pth, e in (inf['trees'].get(tname) or {}).items():
+                if e['type'] == 'file' and e['records'][0]['extent'] in skip and pth in v.get(ns, {}):
+                    v[ns][pth] = v[ns][pth][:2] + ('moved-boot-data',) + v[ns][pth][3:]
+        rrv = v.get('rr')
+        if rrv and inf.get('rr'):
+            for lp, e in inf['rr']['tree'].items():
+                ent = e.get('entry')
+                if ent is not None and e['type'] == 'file' and ent['records'][0]['extent'] in skip:
+                    k = lp.decode('utf-8', 'replace')
+                    if k in rrv:
+                        rrv[k] = rrv[k][:2] + ('moved-boot-data',) + rrv[k][3:]
+        return v
+    if views(new, info2, {ctx.files[x] for x in patched}) != views(img, info, patched):
         raise SelfCheckFailed('views differ')
+    if el:
+        el2 = info2.get('eltorito') or {}
+        ents2 = ([el2['initial']] + [e for sec in el2.get('sections', []) for e in sec['entries']]) if el2.get('initial') else []
+        if len(ents2) != len(el_entries):
+            raise SelfCheckFailed('El Torito entries differ')
+        for a, b in zip(el_entries, ents2):
+            if {k: v for k, v in a.items() if k != 'rba'} != {k: v for k, v in b.items() if k != 'rba'}:
+                raise SelfCheckFailed('El Torito entry fields differ')
+            if a['rba']:
+                n = old_files[a['rba']] * SECTOR
+                x, y = bytearray(img[a['rba'] * SECTOR:a['rba'] * SECTOR + n]), bytearray(new[b['rba'] * SECTOR:b['rba'] * SECTOR + n])
+                if a['rba'] in patched:
+                    x[12:16] = y[12:16] = b'\0\0\0\0'
+                if x != y:
+                    raise SelfCheckFailed('boot image bytes differ')
     return new
 
 
